@@ -117,7 +117,7 @@ def hdlc_case_st(draw):
 # ------------------------------------------------------------------------------------------- P1
 
 P1_NOISE = ["empty", "random", "random-ascii", "ident-only", "ident-and-lines", "ident-no-lf", "slash-long-no-lf", "long-no-lf", "truncated-readout", "readout-tail", "end-line-only", "non-ascii-ident", "ident-then-long-line", "many-ident-lines",
-            "readout-nonascii-end-line", "readout-bad-end-line", "bang-in-ident", "readout-nonascii-data", "structural-tokens", "structural-tokens"]
+            "readout-nonascii-end-line", "readout-bad-end-line", "bang-in-ident", "readout-nonascii-data", "structural-tokens", "structural-tokens", "compound", "compound", "compound", "compound", "compound"]
 
 _P1_TOKENS = [
     b"/", b"!", b"\n", b"\r\n", b"\x80", b"\xff", b"\xc3\xa6", b"/LGF5E360\r\n", b"/ABC5a!b\r\n", b"/AB\xc3\xa65x\r\n", b"/ABC5x\n", b"/abc\r\n",
@@ -126,7 +126,19 @@ _P1_TOKENS = [
 ]
 
 
+_P1_TAILS = [b"", b"/", b"\x00\x00/\x00\x00", b"/ABC5noi", b"!", b"1-0:1.7.0(", b"\r", b"/ABC5x\r"]
+
+
+def compound_parts(arg, seed):
+    """Noise made of two families and a short tail; each part arrives in its own read() call."""
+    fam = [k for k in dict.fromkeys(P1_NOISE) if k != "compound"]
+    a, b, t = fam[arg % len(fam)], fam[(arg // len(fam)) % len(fam)], _P1_TAILS[(arg // (len(fam) ** 2)) % len(_P1_TAILS)]
+    return [expand_p1_noise(a, arg // 7, seed), expand_p1_noise(b, arg // 11, seed ^ 0x5A5A), t], (a, b)
+
+
 def expand_p1_noise(kind, arg, seed):
+    if kind == "compound":
+        return b"".join(compound_parts(arg, seed)[0])
     rnd = random.Random(seed)
     ro = resync.clean_readouts(1, seed ^ 3)[0]
     if kind == "empty":
@@ -193,7 +205,11 @@ def p1_oracle(case) -> Info:
     reader = dlde.ModeDReader()
     bystander = dlde.ModeDReader()  # another instance in use at the same time
     valid = []
-    for k, ch in enumerate(GH.split(stream, cuts)):
+    if nkind == "compound":  # the noise parts arrive as separate read() calls, the clean readouts are cut as drawn
+        chunks = [p_ for p_ in compound_parts(narg, seed)[0] if p_] + GH.split(b"".join(readouts), cuts)
+    else:
+        chunks = GH.split(stream, cuts)
+    for k, ch in enumerate(chunks):
         guarded(bystander.read, (b"/ABC5by\r\n", b"1-0:1.7.0(1*kW)\r\n", b"!\r\n", b"/XYZ")[k % 4], what="ModeDReader.read (bystander)")
         for ro in guarded(reader.read, ch, what="ModeDReader.read"):
             if guarded(lambda ro=ro: ro.is_valid):
